@@ -402,6 +402,8 @@ def main():
                           "exc": C._typename(type(e)), "variant": variant}))
         sys.stdout.flush()
         return 3
+    if tier == "quick":
+        server.SIM_TIMEOUT = 300      # a per-change check must end well inside its time limit
     # the peer variant: another hash seed, the reverse import order, the other -O level
     if not os.environ.get("SIM_NO_PEER"):
         server.peer_variant = {
